@@ -274,7 +274,10 @@ let run_case (case : string) (implobs : string option) : string =
           while !continue do
             incr count;
             (match do_poll () with
-             | None -> Buffer.add_string buf (if !first then "PANIC" else "+PANIC"); continue := false
+             | None ->
+               Buffer.add_string buf (if !first then "PANIC" else "+PANIC");
+               if !src_ok then Buffer.add_string buf " ok:nopanic=0";
+               continue := false
              | Some p ->
                if not !first then Buffer.add_string buf "+";
                (* a static limit/count is an EmptyLimitStream: its polls are not observable *)
